@@ -46,6 +46,9 @@ def element_spec(draw, kind, idx):
         e["min"], e["max"], e["step"] = draw(st.sampled_from([(None, None, 0), (0, 100, 1), (-90, 90, 0.5), (0, 0, 0)]))
     elif kind == "Light":
         e["default"] = draw(st.none() | st.sampled_from(gen.STATES))
+    elif kind == "BLOB":
+        # a driver may hold a BLOB from the start (definitions carry no payload: clients learn it at the next publication)
+        e["default"] = draw(st.none() | st.none() | st.fixed_dictionaries({"blob": st.binary(min_size=1, max_size=16).map(lambda b: b.hex()), "fmt": st.sampled_from([".bin", ".fits"])}))
     return e
 
 
@@ -120,6 +123,10 @@ def _element(kind, e):
     kwargs = {"label": e.get("label"), "enabled": e.get("enabled", True)}
     if e.get("default") is not None:
         kwargs["default"] = e["default"]
+        if kind == "BLOB":
+            from indi.device import values
+
+            kwargs["default"] = values.BLOB(bytes.fromhex(e["default"]["blob"]), e["default"]["fmt"])
     if kind == "Number":
         kwargs["format"] = e.get("format", "%f")
         if e.get("min") is not None:
@@ -260,6 +267,8 @@ def driver_op():
         st.fixed_dictionaries({"op": st.just("venable"), "d": i, "v": i, "on": st.booleans()}),
         st.fixed_dictionaries({"op": st.just("genable"), "d": i, "g": i, "on": st.booleans()}),
         st.fixed_dictionaries({"op": st.just("select"), "d": i, "v": i, "e": i}),
+        # the driver idiom for "push the current value to whoever listens now": assign what the element already holds
+        st.fixed_dictionaries({"op": st.just("republish"), "d": i, "v": i, "e": i}),
     )
 
 
@@ -285,14 +294,20 @@ def python_value(kind, val):
 class Deployment:
     """Drivers built from specs on one router, plus the model of the enable flags."""
 
-    def __init__(self, specs, router):
+    def __init__(self, specs, router, early=()):
+        """early: indices of devices whose NAME is addressed by a getProperties routed before the driver exists (what a
+        snooping driver constructed before its target does)."""
         self.router = router
         # A spec with "deploy_bases": [k, ...] also deploys instances of its intermediate classes (level k of the
         # chain) as devices of their own, created BEFORE the leaf instance - a base driver and a driver derived
         # from it running side by side, sharing definitions. They are appended to the list of devices.
         specs = list(specs)
         extra_specs, extra_drivers, leaf_drivers = [], [], []
-        for s in specs:
+        for si, s in enumerate(specs):
+            if any(k % len(specs) == si for k in early):
+                from indi import message as _m
+
+                router.process_message(_m.GetProperties(version="1.7", device=s["name"]), sender=None)
             classes = build_classes(s)
             for k in sorted({k % len(classes) for k in s.get("deploy_bases", [])}):
                 if k >= len(classes) - 1 or not any(level["groups"] for level in s["chain"][: k + 1]):
@@ -372,6 +387,11 @@ class Deployment:
         if t == "bool" and kind == "Switch":
             el.bool_value = op["val"]["s"]
             return "bool"
+        if t == "republish":
+            if el._value is None:
+                return "noop"
+            el.value = el._value
+            return f"republish-{kind}"
         val = python_value(kind, op["val"])
         if t == "set_value":
             el.set_value(val)
